@@ -88,11 +88,16 @@ def observe(c):
         old_limit = GambaTools.pda_epsilon_closure_max_iterations
         GambaTools.pda_epsilon_closure_max_iterations = c['limit']
         try:
+            from gambatools.pda_algorithms import pda_accepts_word
+            acc = []
             for w in c['ws']:
                 r = safe(pda_simulate_word, P, w)
                 out.append(None if not ok(r) else [None if r[1] is None else [[q, rem, list(st)] for q, rem, st in r[1]]])
+                a = safe(pda_accepts_word, P, w)          # the library's own verdict under the same limit (used where a closure is truncated)
+                acc.append(bool(a[1]) if ok(a) else None)
         finally:
             GambaTools.pda_epsilon_closure_max_iterations = old_limit
+        return {'runs': out, 'acc': acc}
     else:
         from gambatools.cfg_algorithms import cfg_derive_word
         from gambatools.cfg import Variable
@@ -122,6 +127,9 @@ def encode(c, o):
         st, sy, f = L.pda_names(x)
         W = lambda w: L.nats(f(a) for a in w)
         R = lambda r: L.option(r, lambda r: L.option(r[0], lambda run: L.lst(L.pair(L.nat(st(q)), W(rem), L.nats(f(s) for s in reversed(stk))) for q, rem, stk in run)))
+        if o.get('acc') is not None and len(o['acc']) == len(o['runs']):
+            accs = L.lst('None' if a is None else '(Some %s)' % L.boolean(a) for a in o['acc'])
+            return 'judge_C15_pda2 %s %d %s %s' % (L.pda(x, st, f), c['limit'], L.lst(L.pair(W(w), R(r)) for w, r in zip(c['ws'], o['runs'])), accs)
         return 'judge_C15_pda %s %d %s' % (L.pda(x, st, f), c['limit'], L.lst(L.pair(W(w), R(r)) for w, r in zip(c['ws'], o['runs'])))
     nm = L.Names()
     for v in x['V']:
